@@ -86,7 +86,9 @@ def gen_case(rng, idx):
         body.append(f'    out({nout}) = {q}{shown}{q}')
 
     add_lit(rng.choice(['plain text', 'a = b + c', 'end do', "it's"]))
-    pre = rng.choice(['', 'see ', 'x=', '(', "'"]) if pos != 'dstring' else rng.choice(['', 'see ', '('])
+    # prefixes include the *other* quote character (odd count) and the same one (doubled by add_lit)
+    pre = rng.choice(['', 'see ', 'x=', '(', "'", 'a 5" pipe at ', 'say "', "it's "]) if pos != 'dstring' \
+        else rng.choice(['', 'see ', '(', "it's ", "o'clock' "])
     post = rng.choice(['', ' here', ')', ',1', ' ! no comment'])
     if pos == 'string':
         add_lit(f'{pre}{t}{post}', "'")
@@ -103,7 +105,7 @@ def gen_case(rng, idx):
         lits.append('inl')
         body.append(f"    out({nout}) = 'inl'  ! {c}")
     elif pos == 'identifier':
-        name = rng.choice([f'x{t}y', f'v{t}', f'my{t}var'])
+        name = rng.choice([f'x{t}y', f'v{t}', f'my{t}var', f'v2{t}', f'w3{t}x', f'a_{t}9', f'k{t}_2'])
         idents.append(name)
         body.append(f'    {name} = {rng.randint(2, 9)}')
         body.append(f'    ival = ival + {name}')
